@@ -107,6 +107,7 @@ impl<'de, 'a> DeserializeSeed<'de> for RKey<'a> {
         match self.kt {
             KeyTy::Str => String::deserialize(d).map(Val::Str),
             KeyTy::SpannedStr => R { ty: &Ty::Spanned(Box::new(Ty::Str)), cfg: self.cfg }.deserialize(d),
+            KeyTy::NewtypeSpanned(name) => d.deserialize_newtype_struct(intern(name), NewtypeV { t: &Ty::Spanned(Box::new(Ty::Str)), cfg: self.cfg, name }),
             KeyTy::UnitVariant(name, vars) => {
                 let vars: Vec<(String, VarTy)> = vars.iter().map(|v| (v.clone(), VarTy::Unit)).collect();
                 let names: Vec<String> = vars.iter().map(|(f, _)| f.clone()).collect();
